@@ -27,6 +27,7 @@ bg_bool nondet_bg_bool(void);
 int nondet_int(void);
 double nondet_double(void);
 long nondet_long(void);
+struct bg_adj *nondet_adjp(void);
 #define BG_PRE(c, msg) __CPROVER_assert((c), "STL-PRE " msg)
 #define BG_ASSUME(c) __CPROVER_assume(c)
 typedef struct { int v; } VLabel;         /* opaque user label (A-PARAM)      */
